@@ -104,6 +104,20 @@ def goldens(rng):
     out.append(("ip4_frag_last_short", ether(m1, m2, 0x0800, ipv4(a4, b4, 17, pay(8), b"", flags_frag=0x0003))))
     out.append(("ip4_frag_mid_vlan", ether(m1, m2, 0x0800, ipv4(a4, b4, 6, pay(16), b"", flags_frag=0x2005), (0x0001,))))
     out.append(("ip4_udp_short", ether(m1, m2, 0x0800, ipv4(a4, b4, 17, lambda ps: udp(1, 2, pay(1), ps)))))
+    # ICMP errors with the RFC 4884 length attribute describing LESS than 128 octets and a valid extension structure right
+    # behind the original datagram (RFC 4884 requires 128: compliant parsers - libtins included - do not take it as extensions)
+    def icmp_err(typ, quote, length_words, ext_payload):
+        ext = struct.pack("!BBH", 0x20, 0, 0) + struct.pack("!HBB", 4 + len(ext_payload), 1, 1) + ext_payload
+        ext = ext[:2] + struct.pack("!H", csum(ext)) + ext[4:]
+        body = struct.pack("!BBHBBH", typ, 0, 0, 0, length_words, 0) + quote + ext
+        return body[:2] + struct.pack("!H", csum(body)) + body[4:]
+    for words in (9, 16, 31):
+        q = ipv4(a4, b4, 17, lambda ps: udp(33434, 40000, pay(words * 4 - 28), ps))
+        out.append(("ip4_icmp_ttlx_len%d_ext" % words, ether(m1, m2, 0x0800, ipv4(a4, b4, 1, icmp_err(11, q, words, pay(8))))))
+    # PPPoE frames whose payload length is 0, captured before Ethernet padding (20 octets): PADT without tags, empty session packet
+    out.append(("pppoe_padt_empty_short", ether(m1, m2, 0x8863, struct.pack("!BBHH", 0x11, 0xa7, 0x1234, 0))))
+    out.append(("pppoe_session_empty_short", ether(m1, m2, 0x8864, struct.pack("!BBHH", 0x11, 0, 0x1234, 0))))
+    out.append(("pppoe_pads_tag_short", ether(m1, m2, 0x8863, struct.pack("!BBHH", 0x11, 0x65, 0x0042, 8) + struct.pack("!HH", 0x0103, 4) + pay(4))))
     # DNS messages with names at and just beyond the legal limits (255 octets on the wire / 253 characters as text)
     for labels in ([63, 63, 63, 61], [63, 63, 63, 62], [63, 63, 63, 62, 1], [63, 63, 63, 63], [1] * 126, [1] * 127, [1] * 128, [62, 63, 63, 63]):
         qname = b"".join(bytes([n]) + bytes([97 + (i % 26)]) * n for i, n in enumerate(labels)) + b"\0"
